@@ -11,6 +11,7 @@ import Driver.Gen
 import Driver.Wts
 import Driver.Mlpg
 import Driver.Voc
+import Driver.Pipe
 
 open Drv
 
@@ -20,6 +21,7 @@ def dispatch (op : String) : Option (P Verdict) :=
   | "vset" => some Drv.Wts.runVset
   | "wset" => some Drv.Wts.runWset
   | "wavg" => some Drv.Wts.runWavg
+  | "pipe" => some Drv.Pipe.run
   | "voc" => some Drv.Voc.run
   | "mlpg" => some Drv.Mlpg.run
   | "gen" => some Drv.Gen.run
